@@ -28,6 +28,7 @@ RULE = ("function level: parse_ls_date(build_list_mtime(m, now), now) on an (m, 
         "a point within 3 days of a boundary, or a directory with >= 2 entries.")
 RULE += ("  " + "Also: entry names with '; ', '=', ' -> ', date-like prefixes and non-ASCII letters; both sides configured with encoding latin-1; the same directory listed again by the same server after the clock moved; PathIO and AsyncPathIO on real directories of up to 130 entries with utime-set mtimes.")
 RULE += ("  " + 'Also (round 7): file-system entries with set-uid / set-gid / sticky bits with and without the execute bit below them; an exception of list() on a readable directory is a violation.')
+RULE += ("  " + 'Also (round 8): a Client object in its second life (first: a LIST-only server, or listing before login) learns exact MLSD facts.')
 ASSUMPTIONS = ["only C/C.utf8/POSIX locales exist here: the setlocale('C') guard cannot be exercised against another locale",
                "end-to-end clock: aioftp.server.time and aioftp.client.datetime are replaced by shims following a chosen "
                "'now' (a canary checks the shim is effective, otherwise the real clock is used with mtimes relative to it)"]
